@@ -30,7 +30,7 @@ def size_key(o):
     return (o.get("h", 0), o.get("w", 0), o.get("nr", 0), o.get("nc", 0))
 
 
-def validate_balanced(ctx, obs, timeout=2400, nshards=None):
+def validate_balanced(ctx, obs, timeout=14000, nshards=None):
     n = min(nshards or vlib.NCPU, max(1, len(obs)))
     order = sorted(range(len(obs)), key=lambda i: -cost(obs[i]))
     loads, shards = [0] * n, [[] for _ in range(n)]
